@@ -38,21 +38,21 @@ def run(prop, tier, seed, replay=None):
         for b in bad:
             e = json.loads(tl[b["line"] - 1])
             name = None
-            if e["t"] == "cmd" and e["fn"] == "setpointDescriptionListData" and e["shape"] in ("read+elem", "delete+elem") and not e["elem"] and e["panic"] == "":
+            if e["t"] == "cmd" and e["fn"] == "setpointDescriptionListData" and "elem" in e["shape"] and e["pelem"] == 0 and e["delem"] == 0 and e["panic"] == "":
                 name = "SetpointDescriptionElementsTagEmpty"
             if name and name in known:
                 kf.setdefault(name, []).append(e)
                 continue
             viol += 1
             if viol <= 8:
-                path = write_replay(prop, "%s_%s" % (e.get("fn", "x"), e.get("shape", e["t"]).replace("+", "-")), {"property": prop, "case": e, "why": b["why"]})
+                path = write_replay(prop, "%s_%s" % (e.get("fn", "x"), e.get("shape", e["t"]).replace("+", "-").replace("&", "_")), {"property": prop, "case": e, "why": b["why"]})
                 print("VIOLATION property=%s replay=%s" % (prop, path))
                 print("  %s %s: %s %s" % (e.get("fn"), e.get("shape"), b["why"], e.get("panic", "")[:120]))
         for name, es in kf.items():
             print("KNOWN-FINDING: property=%s %s: %s (%d commands)" % (prop, name, known[name]["identified_by"], len(es)))
         ncmd = sum(1 for l in tl if '"t":"cmd"' in l)
         cov = {"evaluations": lines, "distinct_nontrivial": lines - len(bad),
-               "rule": "all %d functions registered for the 32 feature types x the 9 command shapes that the function has a selector / elements type for (%d commands), plus value round trips of generated "
+               "rule": "all %d functions registered for the 32 feature types x the 13 command shapes (9 single filters, 4 combinations of a delete filter with a partial selector) that the function has a selector / elements type for (%d commands), plus value round trips of generated "
                        "values of every payload / selector / elements type at 4 depths; every line is a distinct case" % (stats["functions"], ncmd),
                "samples": [json.loads(tl[k]), json.loads(tl[-1])], "exhaustive": True, "bad": len(bad),
                "deviations_used": {k: len(v) for k, v in kf.items()},
